@@ -24,7 +24,8 @@ EXPLANATION = (
     "surface a version that was never committed)."
     " Also: (R6) a failed pointer write on an atomic backend is a clean failure; (R7) version resolution is stateless; (R8) the pointer's ETag always reaches the conditional write; (R9) recovery's listing is complete."
     " (R10) the CAS path's 'pointer moved' conflict needs a parsed pointer; (R11) the regex's version group is int()-converted before any other use (no lexicographic v9 > v10); (R12) no truthiness test of a version number (v0 is a version); (R13) the new metadata file is numbered resolved version + 1 and the constant start value is guarded by `is None`."
-    ' (R14) who-may-delete census (C09.R3); (R15) every pointer write publishes a name freshly allocated by _new_metadata_filename in the same function (the pointer never moves to an old version).')
+    ' (R14) who-may-delete census (C09.R3); (R15) every pointer write publishes a name freshly allocated by _new_metadata_filename in the same function (the pointer never moves to an old version).'
+    ' (R16) every backend operation does its work and both listings keep every entry (C20.R8).')
 NOT_DECIDED = ("byte-level pointer grammar x histories at run time; orphans left by a crash (no exception path exists to "
                "clean them - format limitation)")
 
